@@ -25,6 +25,7 @@ let rec zlen (l : 'a list) = List.length l
 (* ---- state of one case ---- *)
 let caps = ref caps_init
 let cfg = ref { g_dont_convert_rich = false; g_xvp = false; g_utf8 = false; g_ledhook = false; g_reset_extclip = false; g_raw_for_24bpp = false; g_wrap_coalesce = false; g_wrap_copy = false }
+let clipcursor = ref false
 let mk_pst bpp depth tc rmax gmax bmax w h =
   { p_bpp = bpp; p_depth = depth; p_truecolour = tc; p_rmax = rmax; p_gmax = gmax; p_bmax = bmax;
     p_fbw = w; p_fbh = h; p_latest = []; p_named = []; p_scale_requested = false }
@@ -164,6 +165,7 @@ let () =
                  g_ledhook = kvi toks "ledhook" = 1; g_reset_extclip = kvi toks "resetextclip" = 1;
                  g_raw_for_24bpp = kvi toks "raw24" = 1; g_wrap_coalesce = kvi toks "wrapfix" = 1;
                  g_wrap_copy = kvi toks "wrapcopy" = 1 };
+        clipcursor := (kvi toks "clipcursor" = 1);
         fbw := kvi toks "w"; fbh := kvi toks "h";
         pst := mk_pst (g "bpp") (g "depth") (kvi toks "tc" = 1) (g "rmax") (g "gmax") (g "bmax") (g "w") (g "h");
         print_endline "screen ok"
@@ -219,7 +221,7 @@ let () =
                    sn_bpp = (if kv toks "bpp" = "" then (!pst).p_bpp else g "bpp");
                    sn_rdsc = g "rdsc"; sn_dserr = g "dse" } in
         print_endline (caps_line "mcaps" !caps);
-        let (c', o) = model_update !cfg !caps sn in
+        let (c', o) = model_update_sel !clipcursor !cfg !caps sn in
         caps := c';
         let scaled = kvi toks "scaled" = 1 in
         (* the update model covers unscaled clients with a pixel format the encoders support *)
